@@ -610,6 +610,7 @@ func (fc *FnCtx) exec(in ssa.Instruction) {
 		v := fc.valOf(x.Val)
 		elem := derefType(x.Addr.Type())
 		fc.checkNilPtr(addr, x.Pos(), "store")
+		fc.checkGuard(x.Addr, x.Pos(), true)
 		fc.storeVal(fc.heap, addr, elem, v)
 	case *ssa.MakeInterface:
 		fc.vals[x] = fc.makeInterface(x)
@@ -625,6 +626,8 @@ func (fc *FnCtx) exec(in ssa.Instruction) {
 		fc.heap.set(dom, store(fc.heap.get(dom, ds), r, "((as const (Array Int Bool)) false)"))
 		fc.vals[x] = scalar(r, sInt, x.Type())
 	case *ssa.MakeChan:
+		// anchor `at make(chan T)`: arg0 is the capacity
+		fc.hookAnchor("make", fc.srcText(x.Pos()), x, []Val{fc.valOf(x.Size)}, nil)
 		r := fc.newRef(x, "chan")
 		fc.vals[x] = scalar(r, sInt, x.Type())
 	case *ssa.MakeClosure:
